@@ -3,7 +3,9 @@ import AfkakProofs.BrokerClient.SimC10
 import AfkakProofs.BrokerClient.MonC10
 import AfkakProofs.BrokerClient.SimC06
 import AfkakProofs.BrokerClient.MonC06
-import AfkakProps.Open.C10
+import AfkakProofs.BrokerClient.Reent10
+import AfkakProofs.BrokerClient.Compose
+import AfkakProofs.BrokerClient.Term
 /-!
 # C10 — after a connection drop, unanswered requests are re-sent once, in order; reconnect, back-off, close
 Property theorems only; helper lemmas live in `AfkakProofs/BrokerClient/`.
@@ -405,7 +407,7 @@ example : (trace ⟨fun n => n⟩ (St.init 1 9092) demo).map (·.2) =
 example : (run ⟨fun n => n⟩ (St.init 1 9092) (demo.take 14)).connector = .attempt := by decide +kernel
 example : (run ⟨fun n => n⟩ (St.init 1 9092) (demo.take 15)).closed = false := by decide +kernel
 
-/-! Re-entrant callbacks (open statement `C10_reentrant` in `Open/C10.lean`): a run of the re-entrant model
+/-! Re-entrant callbacks (`C10_reentrant` below): a run of the re-entrant model
 in which the callback of a fire-and-forget request cancels a queued request while the queue is written —
 the cancelled request is not written (the behaviour after commit e52a354) — accepted by `r10`. -/
 example : ((Afkak.BrokerClientR.traceR ⟨fun _ => 1⟩ (Afkak.BrokerClientR.StR.init 1 9092)
@@ -416,6 +418,125 @@ example : ((Afkak.BrokerClientR.traceR ⟨fun _ => 1⟩ (Afkak.BrokerClientR.StR
 example : r10 (Afkak.BrokerClientR.traceR ⟨fun _ => 1⟩ (Afkak.BrokerClientR.StR.init 1 9092)
       [.make 1 false (some [.cancel 2]), .make 2 false none, .make 3 true none, .flat .connOk]) = true := by
   decide +kernel
+
+/-- C10 for callbacks that call back into the broker client (`Afkak/BrokerClientR.lean`): every
+    callback is any finite list of actions (`close`, `disconnect`, `cancel id`, `make id expect`), runs
+    synchronously inside the firing, and may fire further Deferreds whose callbacks do the same; the
+    endpoint may be the pathological one that connects from inside `connector.cancel()` (`stubborn`).
+    For every configuration, every event list and every amount of fuel, if the interpreter did not
+    run out of fuel in this run (no `fuelOut` marker — decidable on the trace; the driver runs with
+    100000 and would print it), the stream monitor `r10` accepts the trace: once a `close()` has gone
+    ahead no connection attempt, timer or write follows; no request is written twice on one
+    connection; a request whose Deferred has fired is never written afterwards; `down` is reported at
+    most once and only after `close()`.  That some amount of fuel always suffices is `fuel_suffices`; together: `C10_reentrant`. -/
+theorem C10_reentrant_partial (cfg : Cfg) (fuel host port : Nat) (evs : List Afkak.BrokerClientR.EvR)
+    (hfuel : ∀ t ∈ Afkak.BrokerClientR.traceRWith cfg fuel (Afkak.BrokerClientR.StR.init host port) evs,
+      Afkak.BrokerClientR.ObR.fuelOut ∉ t.2) :
+    r10 (Afkak.BrokerClientR.traceRWith cfg fuel (Afkak.BrokerClientR.StR.init host port) evs) = true := by
+  simp only [r10]
+  rw [Afkak.BrokerClientR.r10_trace cfg fuel evs _ _ _ 0 (Afkak.BrokerClientR.top10_init host port) hfuel]
+  rfl
+
+/-- Composition with the client layer's timeout wrapper (`_make_request_to_broker`, `Afkak/ClientNet.lean`),
+    for C11/C20.  `st` is any state of the client layer in which request `k` is pending, with
+    `disconnect_on_timeout`; `s` is any reachable state of the broker client the request was made on,
+    connected (connection `c`, not being dropped, writes succeeding), in which the request — correlation
+    id `L.cid k` — is still outstanding (`rq`).  When the wrapper's timer fires:
+    * the client layer calls `cancel` on the request's Deferred and, last of all the work the timer
+      causes, `disconnect()` on that broker client — and nothing else on it from `_mrtb_timeout` itself;
+      it books the request as failed synchronously (`fired k (some .cancelled)`);
+    * the broker client does errback that Deferred, and only that one, at once with `CancelledError`
+      (so the client layer's synchronous bookkeeping is right), and `disconnect()` drops connection `c`;
+    * once the connection is gone the table is exactly the other uncancelled requests, a reconnect
+      starts iff there is one, and on the next connection (`s.nconn`) exactly those are written, each
+      once, in issue order — the timed-out request is not among them;
+    * a late reply to the timed-out request on the old connection is swallowed by the tombstone:
+      nothing fires, nothing is reported, every other request stays in the table.
+    Assumed: the link `L` (request `k` ↔ correlation id `L.cid k`, made on instance `L.bOf k = q.b`),
+    and that no other call reaches this broker client between the `cancel` and the `disconnect` (the
+    follow-up work of the failed request goes to other brokers); for other interleavings
+    `C10_resend_exact` and `C10_never_resent` still say what is written on the next connection. -/
+theorem C10_timeout_disconnect_resends (ccfg : Afkak.ClientNet.Cfg) (st : Afkak.ClientNet.St) (k : Nat)
+    (q : Afkak.ClientNet.Req) (L : Afkak.Compose.Link) (cfg : Cfg) (host port : Nat) (evs : List Ev) (rq : Req) (c : Nat)
+    (hq : Afkak.ClientNet.reqGet st k = some q) (hpend : q.pending = true) (hdis : ccfg.disconnectOnTimeout = true)
+    (hb : L.bOf k = q.b)
+    (hrq : rq ∈ (run cfg (St.init host port) evs).reqs) (hid : rq.id = L.cid k) (hlive : rq.cancelled = false)
+    (hp : (run cfg (St.init host port) evs).proto = some c) (hlo : (run cfg (St.init host port) evs).losing = false)
+    (hwf : (run cfg (St.init host port) evs).wfail = false) :
+    let s := run cfg (St.init host port) evs
+    let s1 := (step cfg s (.cancel rq.id)).1
+    let s2 := (step cfg s1 .disconnect).1
+    let s3 := (step cfg s2 .lost).1
+    -- the client layer
+    (Afkak.ClientNet.exec ccfg st (.timeoutFired k)).2.1 = [.bcCancel k, .fired k (some .cancelled)] ∧
+    (∃ acts, (Afkak.ClientNet.exec ccfg st (.timeoutFired k)).2.2 = acts ++ [.disconnect q.b]) ∧
+    Afkak.Compose.downFor L q.b (Afkak.ClientNet.exec ccfg st (.timeoutFired k)).2.1 = [.cancel rq.id] ∧
+    (∀ st', Afkak.Compose.downFor L q.b (Afkak.ClientNet.exec ccfg st' (.disconnect q.b)).2.1 = [.disconnect]) ∧
+    -- the broker client
+    (step cfg s (.cancel rq.id)).2 = [.fire rq.serial rq.id (.err .cancelled)] ∧
+    (step cfg s1 .disconnect).2 = [.lose c] ∧
+    s3.reqs = Afkak.Compose.remaining s rq.id ∧
+    (step cfg s2 .lost).2 = (if Afkak.Compose.remaining s rq.id = [] then [] else [.connect s.host s.port]) ∧
+    (Afkak.Compose.remaining s rq.id ≠ [] →
+      (step cfg s3 .connOk).2 = (Afkak.Compose.remaining s rq.id).map (fun r => .write s.nconn r.serial r.id)) ∧
+    rq.serial ∉ (Afkak.Compose.remaining s rq.id).map (·.serial) ∧
+    -- a late reply on the old connection
+    (∀ chunk f, (feed s1.rbuf chunk).frames = [f] → (feed s1.rbuf chunk).exceeded = false → corrId f = some rq.id →
+      (step cfg s1 (.bytesIn chunk)).2 = [] ∧
+      (step cfg s1 (.bytesIn chunk)).1.reqs = s.reqs.filter (fun r => r.id != rq.id)) := by
+  intro s s1 s2 s3
+  have h : SInv s := sinv_run cfg (St.init host port) evs (sinv_init host port)
+  obtain ⟨w1, acts, w2⟩ := Afkak.Compose.wrapper_timeout_calls ccfg st k q hq hpend
+  obtain ⟨w3, _⟩ := Afkak.Compose.wrapper_timeout_downcalls L ccfg st st k q hq hpend hb
+  obtain ⟨b1, b2, b3, b4, b5, b6⟩ := Afkak.Compose.timeout_disconnect_resends cfg s h rq c hrq hlive hp hlo hwf
+  refine ⟨w1, ⟨acts, by rw [w2, hdis]; rfl⟩, by rw [w3, hid], ?_, b1, b2, b3, b4, b5, b6, ?_⟩
+  · intro st'
+    exact (Afkak.Compose.wrapper_timeout_downcalls L ccfg st st' k q hq hpend hb).2
+  · intro chunk f
+    exact Afkak.Compose.late_reply_swallowed cfg s h rq c hrq hlive hp hlo chunk f
+
+/-! The hypotheses are satisfiable and the conclusion is not empty: three requests on a connection, the
+second times out; the other two are written again on the next connection, a late reply is swallowed. -/
+example : let s := run ⟨fun _ => 1⟩ (St.init 1 9092) [.make 1 true, .make 2 true, .make 3 true, .connOk]
+    ({ serial := 1, id := 2, expect := true, sent := true, cancelled := false } : Req) ∈ s.reqs ∧
+    s.proto = some 0 ∧ s.losing = false ∧ s.wfail = false ∧
+    Afkak.Compose.remaining s 2 = [{ serial := 0, id := 1, expect := true, sent := false, cancelled := false },
+                                  { serial := 2, id := 3, expect := true, sent := false, cancelled := false }] := by
+  decide +kernel
+example : ((trace ⟨fun _ => 1⟩ (St.init 1 9092)
+      [.make 1 true, .make 2 true, .make 3 true, .connOk, .cancel 2, .disconnect, .lost, .connOk]).map (·.2)).drop 4 =
+    [[.fire 1 2 (.err .cancelled)], [.lose 0], [.connect 1 9092], [.write 1 0 1, .write 1 2 3]] := by decide +kernel
+example : (Afkak.ClientNet.exec ⟨1, true, []⟩
+      { reqs := [{ k := 0, b := 5, issued := 0, due := 1, owner := .srtc 0 }] } (.timeoutFired 0)).2.1
+    = [.bcCancel 0, .fired 0 (some .cancelled)] := by decide +kernel
+
+/-- C10 with RE-ENTRANT callbacks, unconditionally (formerly the open statement): for every
+    configuration and every event list of the re-entrant model, from some amount of fuel on the
+    stream monitor `r10` accepts the trace — whatever the callbacks do: once a `close()` has gone ahead
+    no connection attempt, timer or write follows; no request is written twice on one connection; a
+    request whose Deferred has fired is never written afterwards; `down` is reported at most once and
+    only after `close()`.  (`fuel_suffices`: the interpreter terminates; `C10_reentrant_partial`.) -/
+theorem C10_reentrant (cfg : Cfg) (host port : Nat) (evs : List Afkak.BrokerClientR.EvR) :
+    ∃ N, ∀ fuel, N ≤ fuel →
+      r10 (Afkak.BrokerClientR.traceRWith cfg fuel (Afkak.BrokerClientR.StR.init host port) evs) = true := by
+  obtain ⟨N, hN⟩ := Afkak.BrokerClientR.fuel_suffices cfg evs (Afkak.BrokerClientR.StR.init host port)
+  exact ⟨N, fun fuel hf => C10_reentrant_partial cfg fuel host port evs (hN fuel hf)⟩
+
+/-! The hypothesis of `C10_reentrant_partial` is satisfiable, with nested callbacks at work: the callback
+of request 1 closes the client from inside `_sendQueued`; the close fires request 3, whose callback
+makes a request on the closed client.  Fuel 20 suffices. -/
+example : ∀ t ∈ Afkak.BrokerClientR.traceRWith ⟨fun _ => 1⟩ 20 (Afkak.BrokerClientR.StR.init 1 9092)
+      [.make 1 false (some [.cancel 2, .close]), .make 2 false none, .make 3 true (some [.make 4 true]), .flat .connOk,
+       .flat .lost],
+    Afkak.BrokerClientR.ObR.fuelOut ∉ t.2 := by decide +kernel
+example : ((Afkak.BrokerClientR.traceRWith ⟨fun _ => 1⟩ 20 (Afkak.BrokerClientR.StR.init 1 9092)
+      [.make 1 false (some [.cancel 2, .close]), .make 2 false none, .make 3 true (some [.make 4 true]), .flat .connOk,
+       .flat .lost]).map (·.2)) =
+    [[.ob (.connect 1 9092), .made 0 1], [.made 1 2], [.made 2 3],
+     [.ob (.write 0 0 1), .ob (.fire 0 1 .none), .hookBegin 0, .ob (.fire 1 2 (.err .cancelled)),
+      .closing, .ob (.lose 0), .ob (.fire 2 3 (.err .clientError)), .hookBegin 2, .made 3 4,
+      .ob (.fire 3 4 (.err .clientError)), .hookEnd, .hookEnd],
+     [.ob .down]] := by decide +kernel
 
 end Afkak.Props.C10
 
@@ -429,7 +550,9 @@ C10_reconnect_iff
 C10_backoff
 C10_closed_quiet
 C10_close
+C10_reentrant_partial
+C10_timeout_disconnect_resends
+C10_reentrant
 -/
 /- OPEN_STATEMENTS
-C10_reentrant
 -/
